@@ -4,13 +4,18 @@ import AtreeProofs.Codec.RoundTripD
 import AtreeProofs.Codec.RoundTripW
 import AtreeProofs.Codec.CmpSlab
 import AtreeProofs.Codec.CmpFix
+import AtreeProofs.Codec.SlabAll
 /-
   C07 — Slab encoding is canonical, self-describing and round-trips exactly.
   PROPERTY THEOREMS about the byte-level model (`AtreeModel/Codec`).
 
   Round trip / re-encoding: standalone array data slabs (root / non-root, with or without sibling
-  link), array index slabs and large-value slabs (`SlabOK`; it is `False` for the kinds of the
-  second part of the model, which have their own theorems).  The hypotheses `DataOK` / `MetaOK` /
+  link), array index slabs and large-value slabs (`SlabOK`, `decode_encode_flat`), and — the
+  general statements `decode_encode` / `reencode_fixpoint` — ALL SEVEN slab kinds under `SlabOKG`
+  (Codec/SlabAll.lean: per kind the hypotheses of the kind-specific theorem below, for `.adata` /
+  `.mdata` with the EXACT nesting clause `Slab.vdepth ≤ maxNestedLevels` — `MapDataOKX`, `ArrDataOKX`,
+  `ArrDataOKWX`, implied by the `…OKC` / `…OKI` / `…OKW` / `MapDataOK` predicates below; never
+  `False`; `SlabOK s → SlabOKG s`).  The hypotheses `DataOK` / `MetaOK` /
   `validElem` collect what the encoder relies on (field widths, `count = len(elements)`,
   `size = prefix + Σ sizes`, children share the parent's address, …); they follow from the tree
   invariant of C05 (`C06.no_uint16_truncation` for the two `uint16` casts).
@@ -43,18 +48,26 @@ theorem decode_encode_storable (id : SlabID) (e : Elem) (hv : validElem e) (n : 
   have := decodeSlab_encodeStorableSlab id e hv [] n
   simpa using this
 
-/-- Round trip for every modelled slab kind. -/
-theorem decode_encode (s : Slab) (ok : SlabOK s) (n : Nat) :
+/-- Round trip for the three kinds of the first part (`SlabOK`). -/
+theorem decode_encode_flat (s : Slab) (ok : SlabOK s) (n : Nat) :
     decodeSlab s.id (encodeSlab s) n = .ok s (n + s.decodeAllocs) :=
   decodeSlab_encodeSlab s ok n
 
+/-- Round trip for ALL SEVEN slab kinds: decoding the register the encoder wrote gives the slab back
+    — in its decoded form `normSlab s`, which is `s` itself unless an inlined map is written in the
+    compact form (the documented exception: `normSlab_eq_of_noCompact`, `compact_child_shape`,
+    `compact_child_extensional`); allocation count exact. -/
+theorem decode_encode (s : Slab) (ok : SlabOKG s) (n : Nat) :
+    decodeSlab s.id (encodeSlab s) n = .ok (normSlab s) (n + s.decodeAllocsG) :=
+  decodeSlab_encodeSlab_all s ok n
+
 /-- Re-encoding whatever the decoder returns for a register produced by the encoder yields the
-    identical byte string. -/
-theorem reencode_fixpoint (s : Slab) (ok : SlabOK s) (n : Nat) (s' : Slab) (k : Nat)
+    identical byte string: ALL SEVEN slab kinds, compact maps included. -/
+theorem reencode_fixpoint (s : Slab) (ok : SlabOKG s) (n : Nat) (s' : Slab) (k : Nat)
     (h : decodeSlab s.id (encodeSlab s) n = .ok s' k) : encodeSlab s' = encodeSlab s := by
-  rw [decodeSlab_encodeSlab s ok n] at h
+  rw [decodeSlab_encodeSlab_all s ok n] at h
   cases h
-  rfl
+  exact encodeSlab_normSlab s ok
 
 /-- is the slab the root of a value (does it carry extra data) -/
 def isRoot : Slab → Bool
